@@ -1,3 +1,4 @@
+\* X02 non-vacuity: deviation "own-deadline" must violate DeadlineIsMin
 SPECIFICATION Spec
 CONSTANTS
   MaxNodes = 3
